@@ -621,47 +621,114 @@ func c07Lattice() {
 						pool = append(pool, pick(fam))
 					}
 					for _, e := range exprs {
-						verdict := make([]string, 1<<len(pool))
-						for mask := 1; mask < 1<<len(pool); mask++ {
-							var l []string
-							for i := range pool {
-								if mask&(1<<i) != 0 {
-									l = append(l, pool[i])
-								}
-							}
-							verdict[mask] = implSat(e, l).String()
-							res.Evaluations++
-							count("lattice_lists")
-						}
-						for mask := 1; mask < 1<<len(pool); mask++ {
-							if verdict[mask] != "true" {
-								continue
-							}
-							nontrivial("lattice|" + e + "|" + itoa(mask))
-							for i := range pool {
-								sup := mask | 1<<i
-								if sup != mask && verdict[sup] != "true" {
-									var l, l2 []string
-									for j := range pool {
-										if mask&(1<<j) != 0 {
-											l = append(l, pool[j])
-										}
-										if sup&(1<<j) != 0 {
-											l2 = append(l2, pool[j])
-										}
-									}
-									fail(failure{Stream: "oracle", What: "adding the valid entry " + show(pool[i]) + " turned 'satisfied' into " + verdict[sup] + "; extended list " + joinShow(l2),
-										Case: &kase{Expr: e, ExprHex: hx(e), Allowed: l, Extra: map[string]string{"extension": hxl(l2)}}, Impl: verdict[sup], Expected: "true"})
-									mask = 1 << len(pool)
-									break
-								}
-							}
-						}
+						latticeCheck(e, pool)
 					}
 				}
 			}
 		}
 	}
+	c07FamilyLattice()
+}
+
+// latticeCheck: Satisfies(e, S) for every non-empty subset S of the pool; whenever S satisfies e, every S + {x} must
+func latticeCheck(e string, pool []string) {
+	verdict := make([]string, 1<<len(pool))
+	for mask := 1; mask < 1<<len(pool); mask++ {
+		var l []string
+		for i := range pool {
+			if mask&(1<<i) != 0 {
+				l = append(l, pool[i])
+			}
+		}
+		verdict[mask] = implSat(e, l).String()
+		res.Evaluations++
+		count("lattice_lists")
+	}
+	for mask := 1; mask < 1<<len(pool); mask++ {
+		if verdict[mask] != "true" {
+			continue
+		}
+		nontrivial("lattice|" + e + "|" + itoa(mask))
+		for i := range pool {
+			sup := mask | 1<<i
+			if sup != mask && verdict[sup] != "true" {
+				var l, l2 []string
+				for j := range pool {
+					if mask&(1<<j) != 0 {
+						l = append(l, pool[j])
+					}
+					if sup&(1<<j) != 0 {
+						l2 = append(l2, pool[j])
+					}
+				}
+				fail(failure{Stream: "oracle", What: "adding the valid entry " + show(pool[i]) + " turned 'satisfied' into " + verdict[sup] + "; extended list " + joinShow(l2),
+					Case: &kase{Expr: e, ExprHex: hx(e), Allowed: l, Extra: map[string]string{"extension": hxl(l2)}}, Impl: verdict[sup], Expected: "true"})
+				return
+			}
+		}
+	}
+}
+
+// c07FamilyLattice: for every family of the version table, lists that hold members of the family TOGETHER WITH the listed
+// ids that sort between them without belonging to it (CC-BY-3.0-IGO between CC-BY-3.0 and CC-BY-4.0, GPL-2.0-with-…
+// between GPL-2.0 and GPL-3.0): a scan of the sorted list that stops when it "leaves the family" loses the later members
+func c07FamilyLattice() {
+	all := append(append([]string{}, tblActive...), tblDeprecated...)
+	for fi, fam := range tblRanges {
+		if timeUp("c07FamilyLattice") {
+			return
+		}
+		member := map[string]bool{}
+		var members []string
+		for _, g := range fam {
+			for _, x := range g {
+				member[x] = true
+				members = append(members, x)
+			}
+		}
+		sort.Strings(members)
+		if len(members) < 2 {
+			continue
+		}
+		var intruders []string
+		for _, x := range all {
+			if !member[x] && !strings.HasSuffix(x, "+") && x > members[0] && x < members[len(members)-1] {
+				intruders = append(intruders, x)
+			}
+		}
+		rounds := scale(2, 8)
+		for r := 0; r < rounds; r++ {
+			i := rng.Intn(len(members))
+			x := members[i]
+			lo, hi := members[rng.Intn(i+1)], members[i+rng.Intn(len(members)-i)]
+			pool := []string{lo, x, hi}
+			for j := 0; j < 2 && len(intruders) > 0; j++ {
+				pool = append(pool, intruders[rng.Intn(len(intruders))])
+			}
+			if len(intruders) == 0 || r%2 == 1 {
+				pool = append(pool, []string{"MIT", "0BSD", "Zlib"}[(fi+r)%3])
+			}
+			pool = uniqueStrings(pool)
+			for _, e := range []string{x, x + "+", lo + "+", "(" + lo + " OR " + x + ") AND " + hi, x + " OR MIT"} {
+				if implValid(e) {
+					count("family_lattices")
+					latticeCheck(e, pool)
+				}
+			}
+		}
+	}
+}
+
+func uniqueStrings(xs []string) []string {
+	seen := map[string]bool{}
+	var out []string
+	for _, x := range xs {
+		if !seen[x] {
+			seen[x] = true
+			out = append(out, x)
+		}
+	}
+	return out
 }
 
 func allPermutations(xs []string) [][]string {
